@@ -1,0 +1,15 @@
+//go:build !verif
+
+package hermes
+
+// Verification hooks (build tag "verif"). With the tag off every hook is an
+// empty function that the compiler inlines away; shipped behaviour is unchanged.
+
+func verifYield(point, logID, detail string) {}
+
+func verifPoolResult(path string, data []byte) {}
+
+func verifSubsteps(g *GlobalVarsMain, zeit int, wdt float64) float64 { return wdt }
+
+func verifProbe(point string, zeit, subd int, wdt float64, g *GlobalVarsMain, w *WaterSharedVars, n *NitroSharedVars, c *CropSharedVars) {
+}
